@@ -386,7 +386,6 @@ package transport
 //@   prop C16
 //@   opt atomic mu
 //@   opt purecalls f
-//@   requires c != nil && c.list != nil
 //@   assert at return 1 old(c.closed) && !result0 && result1 == ErrConnClosing && ncalls("f") == 0 && ncalls("enqueue") == 0
 //@   assert at call f#1 !c.closed
 //@   assert at call enqueue#1 !c.closed && arg0 == c.list && arg1 == it && it != nil && c.transportResponseFrames == old(c.transportResponseFrames)
